@@ -43,6 +43,13 @@ func (e *Enc) varAt(fr *Frame, name string, at *ssa.BasicBlock, pos token.Pos, p
 				return e.opSV(fr.ops[p], p.Type()), true
 			}
 		}
+		// a local that was renamed since the contract was written (locals.go)
+		if fr.isRoot {
+			if to, ok := e.renamed()[name]; ok && to != name {
+				e.warn("clause names local %q, which no longer exists; following the declaration order it is read as %q", name, to)
+				return e.varAt(fr, to, at, pos, phiMap, heap)
+			}
+		}
 		return SV{}, false
 	}
 	if _, isVar := obj.(*types.Var); !isVar {
@@ -732,3 +739,18 @@ func addrEscapes(v ssa.Value) bool {
 	}
 	return false
 }
+
+// renamed returns the rename map of the root function (pinned locals -> current locals).
+func (e *Enc) renamed() map[string]string {
+	if e.renameDone {
+		return e.renameMap
+	}
+	e.renameDone = true
+	if pinned, ok := pinnedLocals[e.w.funcKey(e.root)]; ok {
+		e.renameMap = renameMap(pinned, e.w.localsOf(e.root))
+	}
+	return e.renameMap
+}
+
+// pinnedLocals is loaded by the check command from baseline/*.locals.json.
+var pinnedLocals = map[string][]LocalDecl{}
